@@ -453,6 +453,53 @@ def cli_lines(a64: bool, spelling: int, noise: int) -> bool:
     return verdict(ok, nontrivial=nt, sample=sample)
 
 
+def _cli_lines_over_markers_concrete(isa, extra_before, extra_after, noise_mask):
+    """--lines names a region that CONTAINS complete markers: the kernel is exactly the named lines
+    (marker comment lines included as comments), the markers play no role"""
+    import os
+    import tempfile
+    from harness._pipeline import run_cli
+    arch, body, noises, cmt, smark, emark = KERNELS[isa]
+    lines = []
+    for i, l in enumerate(body):
+        if noise_mask >> i & 1:
+            lines.append(noises[i % len(noises)])
+        lines.append(l)
+    pro = ["pushq %rbp" if isa == "x86" else "mov x9, x10", cmt + " prologue"]
+    epi = ["ret", cmt + " epilogue"]
+    inner = lines[2:-2]          # an inner region is marked, the user selects a larger one
+    marked = pro + lines[:2] + [cmt + " OSACA-BEGIN"] + inner + [cmt + " OSACA-END"] + lines[-2:] + epi
+    twin = [l.replace("OSACA-BEGIN", "OSACA-BEGIX").replace("OSACA-END", "OSACA-ENX") for l in marked]
+    first = len(pro) + 1 - extra_before
+    last = len(marked) - len(epi) + extra_after
+    arg = "%d-%d" % (first, last)
+    with tempfile.TemporaryDirectory() as td:
+        outs = []
+        for text in (marked, twin):
+            path = os.path.join(td, "k.s")
+            with open(path, "w") as f:
+                f.write("\n".join(text) + "\n")
+            outs.append(_strip_cmdline(run_cli(path, ["--arch", arch, "--lines", arg])).replace(td, ""))
+    got = outs[0]
+    want = outs[1].replace("OSACA-BEGIX", "OSACA-BEGIN").replace("OSACA-ENX", "OSACA-END")
+    return got == want and "Loop-Carried Dependencies Analysis Report" in got, True, {"isa": isa, "lines_arg": arg, "marker_lines": [len(pro) + 3, len(pro) + 4 + len(inner)], "noise_mask": noise_mask}
+
+
+def cli_lines_over_markers(a64: bool, before: int, after: int, noise: int) -> bool:
+    """
+    pre: 0 <= before <= 2 and 0 <= after <= 2 and 0 <= noise < 3
+    post: _
+    """
+    if skip(locals()):
+        return True
+    lo, hi = shard(9)
+    if not (lo <= before * 3 + after < hi):
+        return True
+    mask = [0, 0b00010010, 0b10100101][pick(noise, 3)]
+    ok, nt, sample = native(_cli_lines_over_markers_concrete, "aarch64" if a64 else "x86", pick(before, 3), pick(after, 3), mask)
+    return verdict(ok, nontrivial=nt, sample=sample)
+
+
 CELLS = {
     "markers_x86": {"fn": markers_x86, "bound": "files = 0-1 prologue + start marker + 0-2 body + end marker + 0-1 epilogue units; units = one of 8 decoy kinds (incl. mov $w to the marker register without bytes / other register / wrong bytes / byte prefix); marker style {one .byte line, one byte per line, comment, extra trailing byte}; marker immediates v1, v2 and decoy immediate w: ALL integers",
                     "budget": {"quick": 170, "thorough": 900}, "shards": 12},
@@ -468,6 +515,8 @@ CELLS = {
     "transparency_far": {"fn": transparency_far, "bound": "the same kernels starting at every line 985..1004 of a long file (so that the kernel's line numbers straddle 1000, the LCD search's iteration offset) through byte markers / --lines / a whole file with leading blank lines, with the last 0-3 lines cut off so that the selection ends on an instruction of a dependency cycle",
                          "budget": {"quick": 170, "thorough": 600}, "shards": 20},
     "transparency_far2": {"fn": transparency_far2, "tiers": ("thorough",), "bound": "same at start lines 1500, 1999, 2000, 2001, 3007, 12000", "budget": {"thorough": 900}, "shards": 1},
+    "cli_lines_over_markers": {"fn": cli_lines_over_markers, "bound": "the real CLI with --lines naming a region that contains a complete pair of comment markers around an inner part (0-2 extra lines on either side, 3 noise layouts, both ISAs): the report equals the one for a twin file whose marker comments are defused - with --lines the markers play no role",
+                               "budget": {"quick": 170, "thorough": 600}, "shards": 9},
     "transparency_quick": {"fn": transparency_quick, "tiers": ("quick",), "bound": "8-line kernel on zen1 / tx2; noise line (comment, label, directive, blank) inserted at <= 1 symbolic position x 4 input variants (bare, byte markers, comment markers, --lines)", "budget": {"quick": 170}, "shards": 9},
     "transparency": {"fn": transparency, "tiers": ("thorough",), "bound": "noise at every subset of the 8 positions x 4 noise kinds x 4 variants, plus --fixed", "budget": {"thorough": 2400}, "shards": 64},
 }
